@@ -311,6 +311,7 @@ func cmdCheck(args []string) int {
 
 	var allViol []Violation
 	violGroup := map[int]Group{}
+	stubbed := map[int]bool{}
 	inconclusive := []string{}
 	funcsEncoded := map[string]int{}
 	stubs := map[string]bool{}
@@ -378,6 +379,9 @@ func cmdCheck(args []string) int {
 			}
 			for _, v := range res.Violations {
 				violGroup[len(allViol)] = g
+				if res.UsesStub {
+					stubbed[len(allViol)] = true
+				}
 				allViol = append(allViol, v)
 			}
 			for k, v := range res.KnownSamples {
@@ -408,7 +412,7 @@ func cmdCheck(args []string) int {
 				if len(cov.Samples) < 12 {
 					cov.Samples = append(cov.Samples, map[string]any{"harness": res.Name, "reach": l, "witness": m})
 				}
-				if res.MaxThreads <= 1 && n < 3 {
+				if res.MaxThreads <= 1 && !res.UsesStub && n < 3 {
 					valCases = append(valCases, valCase{g, sp.Pkg.Name(), nativeCase{res.Name, m, cfg.Params}, "ok"})
 					n++
 				}
@@ -471,7 +475,7 @@ func cmdCheck(args []string) int {
 		}
 		rf.Params = t.Params
 		path := filepath.Join(verifDir, "out", "replay", id, fmt.Sprintf("%s-%d.json", v.Harness, i))
-		if !rf.Schedule && v.Kind != "unsat-obligation" && os.Getenv("SYMGO_NO_NATIVE") == "" {
+		if !rf.Schedule && !stubbed[i] && v.Kind != "unsat-obligation" && os.Getenv("SYMGO_NO_NATIVE") == "" {
 			rs, cmdline, err := runNative(mergeGroupFiles(groups, g.Pkg), pkgs[g.Pkg].Pkg.Name(), harnessNames[g.Pkg], []nativeCase{{v.Harness, v.Model, t.Params}}, false)
 			rf.NativeCmd = cmdline
 			if err != nil {
